@@ -22,7 +22,8 @@ impl LldpService {
                 Ok(msg) => {
                     use crate::pktparser::Deserialise as _;
                     match lldppkt::LldpPacket::from_wire(&mut crate::pktparser::Buffer::new(
-                        &msg.buffer[14..],
+                        /* skip the ethernet header; a runt frame parses as empty */
+                        msg.buffer.get(14..).unwrap_or(&[]),
                     )) {
                         Ok(new) => {
                             if prev.is_none() || prev.as_ref().unwrap() != &new {
